@@ -37,7 +37,7 @@ def intercalate (sep : S) : List S → S
   | [x] => x
   | x :: xs => x ++ sep ++ intercalate sep xs
 
-def fifoSuffix : S := ".fifo".toList
+def fifoSuffix : S := ['.', 'f', 'i', 'f', 'o']
 def basenameS : S := modBasename
 
 /-- replacement text for one placeholder; `none` = `Failf` -/
@@ -47,17 +47,17 @@ def replacement (env : Env) (ph : PH) : Option S :=
   match env.portInfos.lookup name with
   | none => none          -- (nil dereference in Go; unreachable: infos come from the same pattern)
   | some info =>
-    if info.typ = "o".toList then
+    if info.typ = ['o'] then
       match env.outPaths.lookup name with
       | none => none
       | some p => some (encodeParent (applyPathModifiers (tempPath p) mods))
-    else if info.typ = "os".toList then
+    else if info.typ = ['o', 's'] then
       match env.outPaths.lookup name with
       | none => none
       | some p =>
         let r := applyPathModifiers (p ++ fifoSuffix) mods
         some (if mods.contains basenameS then r else prependParent r)
-    else if info.typ = "i".toList then
+    else if info.typ = ['i'] then
       match env.inPaths.lookup name with
       | none => none
       | some p =>
@@ -69,11 +69,11 @@ def replacement (env : Env) (ph : PH) : Option S :=
           let base := if env.inStream.contains name then p ++ fifoSuffix else p
           let r := applyPathModifiers base mods
           some (if mods.contains basenameS then r else prependParent r)
-    else if info.typ = "p".toList then
+    else if info.typ = ['p'] then
       match env.params.lookup name with
       | none => none
       | some v => if v = [] then none else some (applyPathModifiers v mods)
-    else if info.typ = "t".toList then
+    else if info.typ = ['t'] then
       match env.tags.lookup name with
       | none => none
       | some v => if v = [] then none else some (applyPathModifiers v mods)
@@ -112,10 +112,10 @@ structure PathEnv where
 def pathReplacement (env : PathEnv) (ph : PH) : Option S :=
   let name := ph.name
   let base : Option S :=
-    if ph.typ = "i".toList then env.inPaths.lookup name
-    else if ph.typ = "o".toList then env.outFuncs.lookup name
-    else if ph.typ = "p".toList then env.params.lookup name
-    else if ph.typ = "t".toList then env.tags.lookup name
+    if ph.typ = ['i'] then env.inPaths.lookup name
+    else if ph.typ = ['o'] then env.outFuncs.lookup name
+    else if ph.typ = ['p'] then env.params.lookup name
+    else if ph.typ = ['t'] then env.tags.lookup name
     else none
   base.map fun b => if ph.mods = [] then b else applyPathModifiers b ph.mods
 
@@ -151,7 +151,7 @@ def extMatch : S → Option S
     if c = '.' && (match cs with | d :: _ => isExtChar d | [] => false) then some (cs.takeWhile isExtChar)
     else extMatch cs
 
-def joinPrefix : S := "join:".toList
+def joinPrefix : S := ['j', 'o', 'i', 'n', ':']
 def isJoinChar (c : Char) : Bool := c != '{' && c != '}' && c != '|'
 
 /-- leftmost match of `join:([^{}|]+)` : group 1 -/
@@ -163,7 +163,7 @@ def joinMatch : S → Option S
     | none => joinMatch cs
 
 def portInfoOf (ph : PH) : PortInfo :=
-  let init : PortInfo := { typ := ph.typ, ext := [], doStream := ph.typ = "os".toList, join := false, joinSep := [] }
+  let init : PortInfo := { typ := ph.typ, ext := [], doStream := ph.typ = ['o', 's'], join := false, joinSep := [] }
   ph.mods.foldl (fun info part =>
     let info := match extMatch part with | some e => { info with ext := e } | none => info
     match joinMatch part with | some sep => { info with join := true, joinSep := sep } | none => info) init
@@ -182,7 +182,7 @@ structure Identity where
   tags   : List (S × S)            -- sorted
 deriving DecidableEq, Repr
 
-def tempDirPrefix : S := "_scipipe_tmp".toList
+def tempDirPrefix : S := ['_', 's', 'c', 'i', 'p', 'i', 'p', 'e', '_', 't', 'm', 'p']
 
 def concat (l : List S) : S := l.foldr (· ++ ·) []
 
